@@ -270,20 +270,22 @@ def run(ck, F, tier):
             # the step's failure is the function's failure: the step (possibly under map / map_err) is the returned value itself, or
             # the function has an Err exit conditioned on the step's result.  Merely *containing* the step in an Ok value (r.ok(),
             # unwrap_or_default, ..) discards the failure.
-            in_result = False
-            v_ = retp
-            for _ in range(4):
-                if isinstance(v_, Poly) and v_ == R:
-                    in_result = True
-                    break
-                a_ = single_atom(v_) if isinstance(v_, Poly) else None
-                if a_ is not None and atom_fn(a_).startswith("std::result::Result::<") and atom_fn(a_).rsplit("::", 1)[-1] in ("map_err", "map", "and_then", "or_else"):
-                    v_ = atom_args(a_)[0]
-                    continue
-                break
+            def carries(v_):
+                for _ in range(4):
+                    if isinstance(v_, Poly) and (v_ == R or repr(v_).replace("either_payload(", "payload0(") == rr):
+                        return True     # (exits() names the payload of a matched result `either_payload`)
+                    a_ = single_atom(v_) if isinstance(v_, Poly) else None
+                    if a_ is not None and atom_fn(a_).startswith("std::result::Result::<") and atom_fn(a_).rsplit("::", 1)[-1] in ("map_err", "map", "and_then", "or_else"):
+                        v_ = atom_args(a_)[0]
+                        continue
+                    return False
+                return False
+            in_result = carries(retp)
             if not in_result:
                 try:
                     for conds_, val_ in exits(tp_, retp):
+                        if carries(val_):
+                            in_result = True        # the step's own result is what the function returns on that path
                         if isinstance(val_, tuple) and len(val_) == 3 and val_[:2] == ("ctor", "Err") and any(rr in c_ for c_, _p in conds_):
                             in_result = True
                 except Exception:
